@@ -536,6 +536,79 @@ fn twins(threads: usize, rounds: usize, seed: u64) -> Value {
     json!({"mode": "stress", "threads": threads, "searches": total, "mismatches": mismatches, "panics": panics, "interleaving": format!("twins{}x{}", threads, rounds), "inputs_mutated": []})
 }
 
+/// Half of the threads compile the SAME few expressions over and over ("hot": every result is
+/// compared with the tree of `parse` and the sequential search result), the other half compile
+/// a stream of never-seen texts as fast as they can ("churn": anything that keeps a bounded
+/// table of compiled expressions is evicting all the time). The duration only sizes the
+/// workload; it is never a verdict.
+fn hotchurn(threads: usize, millis: u64, seed: u64) -> Value {
+    use std::sync::atomic::{AtomicBool, AtomicU64, Ordering};
+    let hot: Vec<&'static str> = vec!["foo.bar", "xs[*]", "recs[?k == `1`].id", "sort_by(recs, &id)[*].id", "length(xs)", "a.b"];
+    let doc = Rcvar::new(var_of(&json!({"foo": {"bar": 42}, "a": {"b": 1}, "xs": [3, 1, 2], "recs": [{"id": 0, "k": 1}, {"id": 1, "k": 2}, {"id": 2, "k": 1}]})));
+    let trees: Arc<Vec<jmespath::ast::Ast>> = Arc::new(hot.iter().map(|t| jmespath::parse(t).unwrap()).collect());
+    let truth: Arc<Vec<String>> = Arc::new(hot.iter().map(|t| fp(&jmespath::compile(t).and_then(|e| e.search(&doc)))).collect());
+    let stop = Arc::new(AtomicBool::new(false));
+    let compiled = Arc::new(AtomicU64::new(0));
+    let mut handles = vec![];
+    for t in 0..threads.max(2) {
+        let (doc, trees, truth, stop, compiled, hot) = (doc.clone(), trees.clone(), truth.clone(), stop.clone(), compiled.clone(), hot.clone());
+        handles.push(thread::spawn(move || {
+            let mut mism: Vec<Value> = vec![];
+            let mut done = 0u64;
+            let r = catch_unwind(AssertUnwindSafe(|| {
+                let mut n = (seed << 20) ^ ((t as u64) << 40);
+                while !stop.load(Ordering::Relaxed) {
+                    if t % 2 == 0 {
+                        let k = (n % hot.len() as u64) as usize;
+                        n += 1;
+                        let e = jmespath::compile(hot[k]).unwrap();
+                        if e.as_ast() != &trees[k] && mism.len() < 3 {
+                            mism.push(json!({"mode": "hotchurn", "thread": t, "expression": hot[k], "problem": "compile returned the tree of another text", "got": format!("{:?}", e.as_ast())}));
+                        }
+                        let g = fp(&e.search(&doc));
+                        if g != truth[k] && mism.len() < 3 {
+                            mism.push(json!({"mode": "hotchurn", "thread": t, "expression": hot[k], "sequential": truth[k], "concurrent": g}));
+                        }
+                        done += 1;
+                    } else {
+                        n += 1;
+                        let text = format!("k{}.v{}", n, t);
+                        let e = jmespath::compile(&text).unwrap();
+                        if let jmespath::ast::Ast::Subexpr { lhs, .. } = e.as_ast() {
+                            if let jmespath::ast::Ast::Field { name, .. } = &**lhs {
+                                if *name != format!("k{}", n) && mism.len() < 3 {
+                                    mism.push(json!({"mode": "hotchurn", "thread": t, "expression": text, "problem": "compile returned the tree of another text", "got": format!("{:?}", e.as_ast())}));
+                                }
+                            }
+                        }
+                        done += 1;
+                    }
+                }
+                compiled.fetch_add(done, Ordering::Relaxed);
+            }));
+            (mism, done, r.is_err())
+        }));
+    }
+    thread::sleep(std::time::Duration::from_millis(millis));
+    stop.store(true, Ordering::Relaxed);
+    let mut mismatches = vec![];
+    let mut total = 0;
+    let mut panics = 0;
+    for h in handles {
+        match h.join() {
+            Ok((m, d, p)) => {
+                mismatches.extend(m);
+                total += d;
+                if p {
+                    panics += 1;
+                }
+            }
+            Err(_) => panics += 1,
+        }
+    }
+    json!({"mode": "stress", "threads": threads, "searches": total, "mismatches": mismatches, "panics": panics, "interleaving": format!("hotchurn{}x{}ms", threads, millis), "inputs_mutated": []})
+}
+
 fn main() {
     let a: Vec<String> = std::env::args().skip(1).collect();
     let num = |i: usize, d: u64| a.get(i).and_then(|v| v.parse().ok()).unwrap_or(d);
@@ -543,6 +616,7 @@ fn main() {
         Some("stress") => stress(num(1, 4) as usize, num(2, 1000) as usize, num(3, 1), 24, 6),
         Some("first") => first(num(1, 4) as usize, num(2, 0), 26),
         Some("burst") => burst(num(1, 4) as usize, num(2, 2000) as usize, num(3, 1)),
+        Some("hotchurn") => hotchurn(num(1, 8) as usize, num(2, 2000), num(3, 1)),
         Some("twins") => twins(num(1, 4) as usize, num(2, 300) as usize, num(3, 1)),
         Some("runtimes") => runtimes(num(1, 4) as usize, num(2, 200) as usize, num(3, 1)),
         Some("small") => {
